@@ -56,18 +56,18 @@ CHECKS.update({
 })
 
 CHECKS.update({
- "C03": ("sinkfault", "E1", "5.1", "seeded fault injection on the client's sink (accept / refuse with any io::ErrorKind per emit, single-fault sweep over every emit position of sampled histories) across sequences of calls on one client",
-         "Seeded exploration over all 22 (kind x value type) entry points + incr/decr x 3 call forms x valid/invalid values (Duration overflow boundary in u128 arithmetic of the harness, alone or at any index of a packed list) x sink answers: one emit iff valid, Ok(metric) only with an accepted emit of exactly that text, the sink's own io::Error carried as source, InvalidInput for rejected values, quiet form never fails and calls the handler exactly once per failure.",
-         "the client's sink and error handler are scripted/recording; the text of the line is not compared with a formatter model (C01/C04 are not applicable to this technique); single task"),
+ "C03": ("sinkfault+sharedclient", "E1+E8", "5.1", "seeded fault injection on the client's sink (accept / refuse with any io::ErrorKind per emit, single-fault sweep over every emit position of sampled histories) across sequences of calls on one client; plus seeded schedule search over one client shared by 2-4 simulated caller threads with scheduling points inside the sink and the error handler",
+         "Seeded exploration over all 22 (kind x value type) entry points + incr/decr x 3 call forms x valid/invalid values (Duration overflow boundary in u128 arithmetic of the harness, alone or at any index of a packed list) x sink answers: one emit iff valid, Ok(metric) only with an accepted emit of exactly that text, the sink's own io::Error carried as source, InvalidInput for rejected values, quiet form never fails and calls the handler exactly once per failure. E8 repeats the per-call oracle per calling thread while other threads are suspended inside the sink or inside the handler: each thread's call hands over exactly its own metric, its result / handler invocation is about exactly that metric, the handler runs on the calling thread once per failed quiet send, and nothing is emitted or reported outside a call.",
+         "the client's sink and error handler are scripted/recording; the text of the line is not compared with a formatter model (C01/C04 are not applicable to this technique); in E8 the only scheduling points are inside the sink and the handler (client.rs itself contains no synchronisation to hook)"),
 })
 
 CHECKS.update({
  "C17": ("macroproc", "E7", "5.7", "one fresh process per seeded history {macros while unset, set, second set, macros after} x fault script; differential against the explicit tagged quiet call on a twin client",
          "Claimed narrowly. Seeded exploration with one child process per case (the global client is process-wide and set-once): every macro panics while unset and nothing is sent; after set_global_default(A) a second set is ignored for ever; each invocation from a compiled-in matrix (22 macro/value-type combinations x 0..3 tags, runtime strings and values incl. overflowing Durations) must hand A's sink exactly what `twin.<kind>_with_tags(k, v).with_tag(..).send()` hands the twin's, report failures only to A's handler exactly as the twin's, evaluate instrumented argument expressions once, and never panic once set.",
          "most of C17 is a statement about macro expansion, i.e. about inputs; only the history dimension is simulation; the argument matrix is finite and compiled in; sinks are scripted"),
- "C20": ("all", "all", "5.8", "all six simulation engines with hostile-value generators, overflow checks and debug assertions on, catch_unwind at every API call and task root; only un-injected panics are reported",
+ "C20": ("all", "all", "5.8", "all seven simulation engines with hostile-value generators, overflow checks and debug assertions on, catch_unwind at every API call and task root; only un-injected panics are reported",
          "Claimed partially. The history- and fault-dependent part (capacity - written after failed flushes, counters under every interleaving, lock().unwrap() after a panic elsewhere, unwinding through the worker and its sentinel) is decided by simulation; the pure-argument part (size hints, casts, formatting of extreme values) is merely exercised by the generators and reported as such.",
-         "sum of the trusted bases of the six engines; huge capacities and allocation failure are outside every generator"),
+         "sum of the trusted bases of the seven engines; huge capacities and allocation failure are outside every generator"),
 })
 
 def main():
@@ -103,11 +103,12 @@ def main():
             "add_only": True,
         },
         "engines": [
-            {"name": "dsim", "path": "dsim/", "serves_properties": sorted(claimed - {"C03", "C17"}), "kind_free_text": "simulation kernel (real threads, one runs at a time, seeded scheduler, quiescence detection, teardown) + pass-through shims"},
+            {"name": "dsim", "path": "dsim/", "serves_properties": sorted(claimed - {"C17"}), "kind_free_text": "simulation kernel (real threads, one runs at a time, seeded scheduler, quiescence detection, teardown) + pass-through shims"},
             {"name": "queue", "path": "ws/engines/src/e3.rs", "serves_properties": ["C08", "C09", "C10", "C11", "C15", "C16"], "kind_free_text": "E3: the real QueuingMetricSink (worker thread, sentinel respawn, crossbeam channel, counters) as simulated tasks against a scripted wrapped sink"},
             {"name": "sockets", "path": "ws/engines/src/e5.rs", "serves_properties": ["C12", "C13", "C14"], "kind_free_text": "E5: socket-backed sinks over simulated datagram sockets, 1-4 emitter tasks sharing a sink / client / queuing wrapper"},
             {"name": "holder", "path": "ws/engines/src/e6.rs", "serves_properties": ["C18"], "kind_free_text": "E6: SingletonHolder under simulated tasks with a happens-before tracker; miri-c18/ is the Miri second opinion"},
             {"name": "sinkfault", "path": "ws/engines/src/e1.rs", "serves_properties": ["C03"], "kind_free_text": "E1: StatsdClient over a scripted sink with a per-emit fault plan"},
+            {"name": "sharedclient", "path": "ws/engines/src/e8.rs", "serves_properties": ["C03"], "kind_free_text": "E8: one StatsdClient shared by 2-4 simulated caller threads; sink answers per metric; scheduling points inside sink and error handler"},
             {"name": "macroproc", "path": "ws/engines/src/e7.rs", "serves_properties": ["C17"], "kind_free_text": "E7: one fresh child process per history for the process-global client; differential against a twin client"},
             {"name": "linebuf", "path": "ws/engines/src/e2.rs", "serves_properties": ["C05", "C06", "C07", "C19"], "kind_free_text": "E2: histories of emit/flush/drop on the line-buffering writer and the buffered sinks with a per-write fault plan; reference model in ws/engines/src/linemodel.rs"},
         ],
